@@ -95,15 +95,17 @@ void *w_top_begin (os_t *os) { return OS_TOP_BEGIN (*os); }
 
 /* what callers of _OS_expand_memory may rely on (same clauses as os_expand_c minus the ghost bookkeeping of segments) */
 void os_expand_use_c (os_t *os, size_t additional_length)
-__CPROVER_requires (gh_len == OFF (os->os_top_object_free) - OFF (os->os_top_object_start))
-__CPROVER_requires (gh_len == 0 || (gh_k < gh_len && gh_byte == os->os_top_object_start[gh_k]))
+/* the ghost byte, if it lies inside the top object as it is at this call, still has its recorded value */
+__CPROVER_requires (gh_k < (size_t) (OFF (os->os_top_object_free) - OFF (os->os_top_object_start)) ==> gh_byte == os->os_top_object_start[gh_k])
 __CPROVER_assigns (os->os_current_segment, os->os_top_object_start, os->os_top_object_free, os->os_boundary, gh_newlen)
-__CPROVER_ensures (gh_newlen >= OS_DEFAULT_SEGMENT_LENGTH && gh_newlen <= 2 * CAP + OS_DEFAULT_SEGMENT_LENGTH && gh_newlen >= gh_len + additional_length)
+__CPROVER_ensures (gh_newlen >= OS_DEFAULT_SEGMENT_LENGTH && gh_newlen <= 2 * CAP + OS_DEFAULT_SEGMENT_LENGTH
+                   && gh_newlen >= (size_t) (OFF (__CPROVER_old (os->os_top_object_free)) - OFF (__CPROVER_old (os->os_top_object_start))) + additional_length)
 __CPROVER_ensures (__CPROVER_is_fresh (os->os_current_segment, gh_newlen + HDR))
 __CPROVER_ensures (__CPROVER_pointer_in_range_dfcc (SEGB (os) + PAY, os->os_top_object_start, SEGB (os) + PAY))
-__CPROVER_ensures (__CPROVER_pointer_in_range_dfcc (SEGB (os) + PAY + gh_len, os->os_top_object_free, SEGB (os) + PAY + gh_len))
+__CPROVER_ensures (__CPROVER_pointer_in_range_dfcc (SEGB (os) + PAY + (OFF (__CPROVER_old (os->os_top_object_free)) - OFF (__CPROVER_old (os->os_top_object_start))), os->os_top_object_free,
+                                                    SEGB (os) + PAY + (OFF (__CPROVER_old (os->os_top_object_free)) - OFF (__CPROVER_old (os->os_top_object_start)))))
 __CPROVER_ensures (__CPROVER_pointer_in_range_dfcc (SEGB (os) + PAY + gh_newlen, os->os_boundary, SEGB (os) + PAY + gh_newlen))
-__CPROVER_ensures (gh_len == 0 || os->os_top_object_start[gh_k] == gh_byte)
+__CPROVER_ensures (gh_k < (size_t) (OFF (os->os_top_object_free) - OFF (os->os_top_object_start)) ==> os->os_top_object_start[gh_k] == gh_byte)
 ;
 
 void top_finish_c (os_t *os)
@@ -176,3 +178,23 @@ void h_top_length (void) { GH (); os_t *os; w_top_length (os); VACUITY_CANARY ()
 void h_top_add_byte (void) { GH (); os_t *os; char b; char *old = os ? 0 : 0; w_top_add_byte (os, b); VACUITY_CANARY (); }
 void h_top_add_memory (void) { GH (); os_t *os; const void *src; size_t n; w_top_add_memory (os, src, n); VACUITY_CANARY (); }
 void h_top_expand (void) { GH (); os_t *os; size_t n; w_top_expand (os, n); VACUITY_CANARY (); }
+
+/* ---- OS.string: _OS_add_string_function (strlen by a trusted contract tied to the ghost length gh_slen) ---- */
+size_t gh_slen;
+size_t strlen_gh_c (const char *s)
+__CPROVER_assigns ()
+__CPROVER_ensures (__CPROVER_return_value == gh_slen)       /* A2: strlen returns the index of the terminating NUL, which the harness names gh_slen */
+;
+void os_add_string_c (os_t *os, const char *str)
+__CPROVER_requires (OS_INV (os, gh_seglen) && gh_len == OFF (os->os_top_object_free) - OFF (os->os_top_object_start))
+__CPROVER_requires (gh_slen < CAP && (str == NULL || (__CPROVER_is_fresh (str, gh_slen + 1) && str[gh_slen] == '\0')) && gh_j <= gh_slen)
+__CPROVER_requires (gh_len <= 1 || (gh_k < gh_len - 1 && gh_byte == os->os_top_object_start[gh_k]))
+__CPROVER_assigns (os->os_current_segment, os->os_top_object_start, os->os_top_object_free, os->os_boundary, gh_newlen, __CPROVER_object_whole (os->os_top_object_free))
+__CPROVER_ensures (str == NULL ==> OFF (os->os_top_object_free) - OFF (os->os_top_object_start) == gh_len)
+/* the string (with its NUL) is appended after dropping the previous terminator, if the object was not empty */
+__CPROVER_ensures (str != NULL ==> OFF (os->os_top_object_free) - OFF (os->os_top_object_start) == (gh_len == 0 ? 0 : gh_len - 1) + gh_slen + 1)
+__CPROVER_ensures (str != NULL ==> os->os_top_object_start[(gh_len == 0 ? 0 : gh_len - 1) + gh_j] == str[gh_j])
+__CPROVER_ensures (gh_len <= 1 || os->os_top_object_start[gh_k] == gh_byte)              /* earlier bytes (except the dropped terminator) unchanged */
+__CPROVER_ensures (str != NULL ==> OFF (os->os_top_object_free) <= OFF (os->os_boundary))
+;
+void h_os_add_string (void) { GH (); HAVOC (gh_slen); os_t *os; const char *s; _OS_add_string_function (os, s); if (s) VACUITY_CANARY_N ("string"); else VACUITY_CANARY_N ("NULL"); }
